@@ -52,4 +52,24 @@ for shape in ((9, 9), (11, 15), (21, 13), (7, 25), (8, 12), (10, 10)):
                     ok = ok and np.max(np.abs(out - want)) < (1e-9 if (shape[0] % 2 and shape[1] % 2) else 5e-3) * img.max()
                     ok = ok and np.allclose(lentil.smear(img, ext * 2e-6, angle=ang, pixelscale=2e-6, oversample=os_), out, rtol=1e-9)
                     a.check(ok, {'fn': 'smear', 'shape': shape, 'os': os_, 'distance': ext, 'angle': ang, 'err': float(np.max(np.abs(out - want)))})
-emit([a])
+
+b = Bounded('C19::totals_of_sparse_images', 'single bright pixels, a few stars and a hot column on (9,9) (12,17) (16,16); jitter scales 0.2..1.5 samples, smear distances 0.5..3 samples',
+            'jitter and smear keep the total of every non-negative input and return a non-negative image of the input shape')
+for shape in ((9, 9), (12, 17), (16, 16)):
+    imgs = {}
+    p = np.zeros(shape); p[shape[0] // 2, shape[1] // 3] = 5.0
+    imgs['point'] = p
+    s_ = np.zeros(shape); s_[1, 2] = 3.0; s_[shape[0] - 2, shape[1] - 3] = 1.0; s_[shape[0] // 2, 0] = 2.0
+    imgs['stars'] = s_
+    c_ = np.zeros(shape); c_[:, shape[1] // 2] = 1.0
+    imgs['column'] = c_
+    for (kind, img), ext in itertools.product(imgs.items(), (0.2, 0.4, 0.8, 1.5)):
+        with b.case({'fn': 'jitter', 'image': kind, 'shape': shape, 'scale': ext}):
+            out = lentil.jitter(img, ext, pixelscale=1, oversample=1)
+            b.check(bool(out.shape == shape and out.min() >= 0 and abs(out.sum() - img.sum()) < 1e-9 * img.sum()),
+                    {'fn': 'jitter', 'image': kind, 'shape': shape, 'scale': ext, 'total': float(out.sum()), 'expected': float(img.sum())})
+        with b.case({'fn': 'smear', 'image': kind, 'shape': shape, 'distance': 2 * ext}):
+            out = lentil.smear(img, 2 * ext, angle=30, pixelscale=1, oversample=1)
+            b.check(bool(out.shape == shape and out.min() >= 0 and abs(out.sum() - img.sum()) < 1e-9 * img.sum()),
+                    {'fn': 'smear', 'image': kind, 'shape': shape, 'distance': 2 * ext, 'total': float(out.sum()), 'expected': float(img.sum())})
+emit([a, b])
